@@ -21,8 +21,9 @@ return the same state table. Every Rung-2 theorem is about `buildDA`; composed w
 they are statements about the table the TRANSLATED Rust builder computes (first corollary below).
 
 Outside: the translators and their preludes (meaning of `Vec`, `BTreeMap`, `RefCell`, integer
-conversions), the sequencing glue `genBuildB`, the char-wise builder (its `build_double_array`
-and the code-mapper construction are tied by K-build only), `build` (the position-conversion wrapper).
+conversions), the sequencing glue `genBuildB` (itself tied to the TRANSLATED `build_sparse_nfa` /
+`build_with_values` in Props/TieTop.lean), `build` (the position-conversion wrapper). The char-wise
+builder has its own end-to-end theorem in Props/TiePipelineC.lean.
 -/
 import Daac.Proofs.TieP
 import Daac.Props.C01
